@@ -72,6 +72,7 @@ ASSUMPTIONS = [
 ]
 
 N_BASE = 12
+_REPLAY_N = [0]
 
 
 # --------------------------------------------------------------------------
@@ -904,6 +905,198 @@ def run_dsapi_case(case):
 
 
 # --------------------------------------------------------------------------
+# 2c. ancillary features keyed on obj2bytes / LazyContourList.identifier:
+#     temporary features (mask, circ) are replaced, contour-derived and other
+#     ancillary features must equal those of a freshly built dataset
+# --------------------------------------------------------------------------
+ANC_FEATS = ["volume", "tilt", "inert_ratio_raw", "inert_ratio_cvx",
+             "inert_ratio_prnc", "deform", "contour"]
+
+
+def gen_anc_case(rng):
+    n = rng.randint(2, 6)
+    ops = [["mask", rng.randint(0, 999), 0], ["circ", rng.randint(0, 999)]]
+    for _ in range(rng.randint(10, 30)):
+        r = rng.random()
+        if r < 0.3:
+            # new masks; the first `keep` events keep their mask
+            ops.append(["mask", rng.randint(0, 999), rng.choice([0, 1, 1, 1, n - 1])])
+        elif r < 0.4:
+            ops.append(["circ", rng.randint(0, 999)])
+        elif r < 0.45:
+            ops.append(["pix", rng.choice([0.34, 0.5])])
+        else:
+            ops.append(["read", rng.choice(ANC_FEATS)])
+    return dict(kind="anc", n=n, ops=ops)
+
+
+def _anc_masks(n, seed, prev, keep):
+    np = _np()
+    import random as _r
+    rg = _r.Random(seed)
+    m = np.zeros((n, 12, 16), dtype=bool)
+    for i in range(n):
+        y0, x0 = rg.randint(1, 3), rg.randint(1, 4)
+        m[i, y0:y0 + rg.randint(2, 7), x0:x0 + rg.randint(2, 9)] = True
+    if prev is not None and keep:
+        m[:keep] = prev[:keep]
+    return m
+
+
+def _anc_dataset(n, mask, circ, pix):
+    np = _np()
+    import dclab
+    ds = dclab.new_dataset({"pos_x": np.linspace(5, 6, n), "pos_y": np.linspace(3, 4, n),
+                            "area_um": np.linspace(30, 60, n)})
+    ds.config["imaging"]["pixel size"] = pix
+    ds.config["imaging"]["roi size x"] = 16
+    ds.config["imaging"]["roi size y"] = 12
+    if mask is not None:
+        dclab.set_temporary_feature(ds, "mask", mask)
+    if circ is not None:
+        dclab.set_temporary_feature(ds, "circ", circ)
+    return ds
+
+
+def _anc_read(ds, feat):
+    np = _np()
+    if feat == "contour":
+        return tuple(canon(np.asarray(c)) for c in ds[feat][:])
+    return canon(np.array(ds[feat], copy=True))
+
+
+def run_anc_case(case):
+    np = _np()
+    import dclab
+    import random as _r
+    n = case["n"]
+    mask = circ = None
+    pix = 0.34
+    ds = _anc_dataset(n, None, None, pix)
+    fail = None
+    reads = 0
+    for i, op in enumerate(case["ops"]):
+        if op[0] == "mask":
+            mask = _anc_masks(n, op[1], mask, op[2])
+            dclab.set_temporary_feature(ds, "mask", mask.copy())
+        elif op[0] == "circ":
+            rg = _r.Random(op[1])
+            circ = np.array([rg.randint(1, 8) / 8.0 for _ in range(n)])
+            dclab.set_temporary_feature(ds, "circ", circ.copy())
+        elif op[0] == "pix":
+            pix = op[1]
+            ds.config["imaging"]["pixel size"] = pix
+        else:
+            okc, vc = safe_call(_anc_read, ds, op[1])
+            okf, vf = safe_call(_anc_read, _anc_dataset(n, mask, circ, pix), op[1])
+            reads += 1
+            if (okc, vc) != (okf, vf) and fail is None:
+                fail = ("op %d: ds[%r] differs from the same feature of a freshly "
+                        "built dataset (%s vs %s)" % (
+                            i, op[1], "value" if okc else vc, "value" if okf else vf))
+    return dict(fail=fail, nontrivial=reads > 2)
+
+
+# --------------------------------------------------------------------------
+# 2d. min()/max()/mean() caches (_ufunc_attrs) of scalar feature objects over
+#     hierarchy refreshes and temporary-feature replacement
+# --------------------------------------------------------------------------
+def gen_ufunc_case(rng):
+    n = rng.randint(6, 16)
+    deform = [rng.randint(1, 160) / 8.0 for _ in range(n)]
+    ops = []
+    for _ in range(rng.randint(15, 40)):
+        r = rng.random()
+        if r < 0.2:
+            lo = rng.randint(0, 80) / 8.0
+            ops.append(["filt", rng.choice([0, 1]), lo, lo + rng.randint(40, 160) / 8.0])
+        elif r < 0.3:
+            ops.append(["temp", rng.randint(1, 9)])
+        elif r < 0.45:
+            ops.append(["rej"])
+        else:
+            ops.append(["attr", rng.choice([0, 1, 2]), rng.choice(["deform", "userdef1"]),
+                        rng.choice(["max", "min", "mean"])])
+    return dict(kind="ufunc", deform=deform, ops=ops, hdf5=rng.random() < 0.4)
+
+
+def run_ufunc_case(case, scratch):
+    np = _np()
+    import dclab
+    deform = np.array(case["deform"], dtype=np.float64)
+    n = len(deform)
+    _REPLAY_N[0] += 1
+    path = os.path.join(scratch, "ufunc_%d_%d.rtdc" % (os.getpid(), _REPLAY_N[0]))
+    if case.get("hdf5"):
+        from . import gen
+        gen.write_spec(path, dict(n=n, features={"deform": deform, "area_um": deform * 10},
+                                  meta=gen.base_meta()))
+
+    def chain(filters, temp):
+        ds = (dclab.new_dataset(path) if case.get("hdf5")
+              else dclab.new_dataset({"deform": deform.copy(), "area_um": deform * 10}))
+        if temp is not None:
+            dclab.set_temporary_feature(ds, "userdef1", deform * temp)
+        levels = [ds]
+        for lv in (0, 1):
+            if filters[lv] is not None:
+                levels[lv].config["filtering"]["deform min"] = filters[lv][0]
+                levels[lv].config["filtering"]["deform max"] = filters[lv][1]
+            levels[lv].apply_filter()
+            ch = dclab.new_dataset(levels[lv])
+            ch.rejuvenate()
+            levels.append(ch)
+        return levels
+
+    filters = [None, None]
+    temp = None
+    levels = chain(filters, temp)
+    stale = False        # children not rejuvenated since the last change
+    fail = None
+    reads = 0
+    for i, op in enumerate(case["ops"]):
+        if op[0] == "filt":
+            filters[op[1]] = (op[2], op[3])
+            levels[op[1]].config["filtering"]["deform min"] = op[2]
+            levels[op[1]].config["filtering"]["deform max"] = op[3]
+            levels[op[1]].apply_filter()
+            stale = True
+        elif op[0] == "temp":
+            temp = op[1]
+            dclab.set_temporary_feature(levels[0], "userdef1", deform * temp)
+            stale = True
+        elif op[0] == "rej":
+            levels[2].rejuvenate()
+            stale = False
+        else:
+            if stale and op[1] > 0:
+                continue       # documented: children must be rejuvenated first
+            lv, feat, fn = op[1], op[2], op[3]
+            ref = chain(filters, temp)
+            okc, vc = safe_call(lambda: float(getattr(levels[lv][feat], fn)()))
+            okf, vf = safe_call(lambda: float(
+                {"max": np.nanmax, "min": np.nanmin, "mean": np.nanmean}[fn](
+                    np.array(ref[lv][feat][:], dtype=np.float64))))
+            reads += 1
+            same = (okc == okf) and ((not okc and vc == vf) or (
+                okc and (vc == vf or (vc != vc and vf != vf)
+                         or abs(vc - vf) <= 1e-12 * max(1.0, abs(vf)))))
+            if not same and fail is None:
+                fail = "op %d: level %d %s.%s() = %s, fresh %s" % (i, lv, feat, fn, vc, vf)
+            for r_ in reversed(ref):
+                try:
+                    r_.__exit__(None, None, None)
+                except Exception:
+                    pass
+    for l_ in reversed(levels):
+        try:
+            l_.__exit__(None, None, None)
+        except Exception:
+            pass
+    return dict(fail=fail, nontrivial=reads > 3)
+
+
+# --------------------------------------------------------------------------
 # 3. hashfile
 # --------------------------------------------------------------------------
 HF_VARIANTS = {
@@ -1417,9 +1610,6 @@ def run_obj_checks(run, nworlds):
     return results
 
 
-_REPLAY_N = [0]
-
-
 def replay_obj_case(case, scratch):
     """Re-create an equivalent object: a file holding exactly data8/8."""
     np = _np()
@@ -1480,6 +1670,10 @@ def exec_case(case, scratch, memos=None):
         return run_public_case(case, memos)
     if k == "dsapi":
         return run_dsapi_case(case)
+    if k == "anc":
+        return run_anc_case(case)
+    if k == "ufunc":
+        return run_ufunc_case(case, scratch)
     if k == "hashfile":
         return run_hashfile_case(case, scratch)
     if k == "lcl":
@@ -1509,18 +1703,22 @@ def run(run):
     t = run.thorough
     cases = load_corpus()
     run.count("corpus", len(cases))
-    n_cache_small, n_cache_big = (150, 40) if t else (16, 4)
+    n_cache_small, n_cache_big = (100, 25) if t else (16, 4)
     for _ in range(n_cache_small):
         cases.append(gen_cache_case(rng, t))
     for _ in range(n_cache_big):
         cases.append(gen_cache_case(rng, t, big=True))
-    for _ in range(60 if t else 6):
+    for _ in range(40 if t else 6):
         cases.append(gen_public_case(rng))
-    for _ in range(60 if t else 8):
+    for _ in range(40 if t else 8):
         cases.append(gen_dsapi_case(rng))
-    for _ in range(120 if t else 14):
+    for _ in range(80 if t else 10):
+        cases.append(gen_anc_case(rng))
+    for _ in range(80 if t else 10):
+        cases.append(gen_ufunc_case(rng))
+    for _ in range(80 if t else 14):
         cases.append(gen_hashfile_case(rng, t))
-    for _ in range(600 if t else 80):
+    for _ in range(400 if t else 80):
         cases.append(gen_lcl_case(rng, t))
 
     import multiprocessing
@@ -1617,7 +1815,8 @@ def run(run):
 def shrink(run, failure):
     case = failure["case"]
     kind = case.get("kind")
-    if kind not in ("cache", "public", "dsapi", "hashfile", "lcl", "obj") or "ops" not in case:
+    if kind not in ("cache", "public", "dsapi", "anc", "ufunc", "hashfile", "lcl", "obj") \
+            or "ops" not in case:
         return failure
 
     def fails(c):
@@ -1655,6 +1854,7 @@ def search(run, broken):
     n = 400 if run.thorough else 60
     gens = [lambda: gen_cache_case(rng, True), lambda: gen_cache_case(rng, True, big=True),
             lambda: gen_public_case(rng), lambda: gen_dsapi_case(rng),
+            lambda: gen_anc_case(rng), lambda: gen_ufunc_case(rng),
             lambda: gen_hashfile_case(rng, True), lambda: gen_lcl_case(rng, True)]
     for i in range(n):
         c = gens[i % len(gens)]()
